@@ -37,6 +37,12 @@ MEMOPS = [
     MemOp('aligned_store_n', 'store', 'PvU', None, 'avel::aligned_store({0}, {1}, {2})', aligned=True),
     MemOp('store_k', 'store', 'Pv', None, 'avel::store<{K}>({0}, {1})', consts=k_count),
     MemOp('aligned_store_k', 'store', 'Pv', None, 'avel::aligned_store<{K}>({0}, {1})', consts=k_count, aligned=True),
+    MemOp('load_default', 'load', 'p', 'v', 'avel::load<{V}>({0})'),
+    MemOp('aligned_load_default', 'load', 'p', 'v', 'avel::aligned_load<{V}>({0})', aligned=True),
+    MemOp('store_default', 'store', 'Pv', None, 'avel::store({0}, {1})'),
+    MemOp('aligned_store_default', 'store', 'Pv', None, 'avel::aligned_store({0}, {1})', aligned=True),
+    MemOp('gather_default', 'gather', 'px', 'v', 'avel::gather<{V}>({0}, {1})', lanes32_64=True),
+    MemOp('scatter_default', 'scatter', 'Pvx', None, 'avel::scatter({0}, {1}, {2})', lanes32_64=True),
     MemOp('gather_n', 'gather', 'pxU', 'v', 'avel::gather<{V}>({0}, {1}, {2})', lanes32_64=True),
     MemOp('gather_k', 'gather', 'px', 'v', 'avel::gather<{V}, {K}>({0}, {1})', consts=k_count, lanes32_64=True),
     MemOp('scatter_n', 'scatter', 'PvxU', None, 'avel::scatter({0}, {1}, {2}, {3})', lanes32_64=True),
